@@ -8,6 +8,7 @@ Transliteration of
                            (the single in-progress marker), `CommWindow::mdns_service`,
 * `sc/pase/responder.rs`  `PaseResponder::{handle, handle_inner, update_session_timeout,
                            handle_pbkdfparamrequest, handle_pasepake1, handle_pasepake3}`,
+* `sc.rs`                 `reserve_session_or_busy` (no slot and nothing to evict ⇒ `Busy`, not charged),
 * `transport/session.rs`  `ReservedSession::{reserve, complete, drop}`, the capacity of the session
                            table, which sessions `get_session_for_eviction` may take,
                            `Session::{rx_timeout_ms, set_peer_session_params}`,
@@ -397,7 +398,7 @@ def reqGood : Req → Bool
 `handle_inner` from `ReservedSession::reserve` up to the first `recv_fetch` -/
 def pbkdfNew (s : St) (x : Nat) (r : Req) (v : Option VClass) : St × Out :=
   match reserve s x v with
-  | none => (recordFailure s, .none)   -- `reserve(..).await?` ⇒ `Err` ⇒ `handle` charges a failure
+  | none => (s, .statusBusy)   -- `reserve_session_or_busy`: `Busy` is answered, `Ok(true)` - no proof, nothing is charged
   | some s =>
     let (s, st) := updateSessionTimeout s x true
     match st with
